@@ -1,4 +1,5 @@
 import Sebuf.OaEmit
+import Sebuf.Lemmas.OaComp
 import Sebuf.Route
 import Sebuf.Props.C03
 /-!
@@ -123,5 +124,74 @@ theorem base_path_variable_undeclared :
 theorem repeated_variable_declared_twice :
     let m := C03.mk "S" "Get" "Get" "p" "" true "/a/{id}/b/{id}" 1 []
     (route .openapi m).pathVars = ["id".toList, "id".toList] := by decide
+
+
+
+/-! ### JSON vs YAML renderings -/
+
+/-- **format independence, partial**: a property whose name is not a YAML-1.1-only boolean keeps
+its name in the JSON rendering. -/
+theorem json_key_preserved_partial (k : String) (h : yaml11Bool k = none) : jsonRenderKey k = k := by
+  unfold jsonRenderKey; rw [h]
+
+/-- a field called `on`, `y`, `n`, `no`, … is published as property `true` / `false` in the JSON
+document while the YAML document keeps its name (known finding `json_yaml_differ`). -/
+theorem json_key_retyped :
+    jsonRenderKey "on" = "true" ∧ jsonRenderKey "y" = "true" ∧ jsonRenderKey "n" = "false" ∧ jsonRenderKey "no" = "false" ∧
+    jsonRenderKey "off" = "false" ∧ jsonRenderKey "yes" = "true" ∧ jsonRenderKey "name" = "name" := by decide
+
+/-- a custom enum / discriminator value spelled like a YAML non-finite float makes `format=json`
+panic while `format=yaml` succeeds (known finding `json_render_crash`). -/
+theorem json_render_crash_witness : jsonRenderCrashes ["active", ".nan"] = true ∧ jsonRenderCrashes ["active", "nan"] = false := by decide
+
+/-! ### component schemas -/
+open Sebuf.OaComp in
+/-- **completeness, partial**: when every schema name is used for one message only (no two
+collected messages share a short name, none is called like a built-in error schema or like a
+generated variant schema), every collected message has a component schema of its own —
+for every schema, service and fuel. -/
+theorem component_per_message_partial (rq : Request) (fuel : Nat) (svc : Service)
+    (h : ∀ a ∈ collect rq fuel svc, ∀ b ∈ collect rq fuel svc, a.1 = b.1 → a.2 = b.2) :
+    ∀ e ∈ collect rq fuel svc, lookupKV e.1 (components rq fuel svc) = some e.2 :=
+  lookup_apply_consistent (collect rq fuel svc) builtinEvents h
+
+open Sebuf.OaComp in
+/-- the built-in error schemas are there unless a message is named like one. -/
+theorem builtin_schemas_present (rq : Request) (fuel : Nat) (svc : Service) (b : Str) (hb : b ∈ builtin)
+    (h : ∀ e ∈ collect rq fuel svc, e.1 ≠ b) : lookupKV b (components rq fuel svc) = some "#builtin".toList := by
+  unfold components
+  rw [lookup_apply_untouched b _ _ h]
+  simp only [builtin, List.mem_cons, List.mem_nil_iff, or_false] at hb
+  rcases hb with rfl | rfl | rfl <;> decide
+
+namespace Witness
+open Sebuf.OaComp
+
+def itemA : Message := { fullName := ".p.A.Item".toList, name := "Item".toList, topLevel := false, fields := [{ name := "x".toList, kind := .string }] }
+def itemB : Message := { fullName := ".p.B.Item".toList, name := "Item".toList, topLevel := false, fields := [{ name := "y".toList, kind := .int32 }] }
+def msgA : Message := { fullName := ".p.A".toList, name := "A".toList, fields := [{ name := "item".toList, kind := .message, typeName := ".p.A.Item".toList }] }
+def msgB : Message := { fullName := ".p.B".toList, name := "B".toList, fields := [{ name := "item".toList, kind := .message, typeName := ".p.B.Item".toList }] }
+def svc : Service := { name := "S".toList, methods := [{ name := "Do".toList, input := ".p.A".toList, output := ".p.B".toList }] }
+def rq : Request := { files := [{ name := "p.proto".toList, messages := [msgA, itemA, msgB, itemB], services := [svc] }] }
+
+/-- **same-named nested types collide** (known finding `component_name_collision`): both `A.Item`
+and `B.Item` are reachable, the document has ONE schema `Item`, and it describes `B.Item`; every
+`$ref` to `A.Item` therefore denotes the wrong schema. -/
+theorem same_named_nested_collide :
+    ".p.A.Item".toList ∈ Spec.reach rq 8 svc ∧ ".p.B.Item".toList ∈ Spec.reach rq 8 svc ∧
+    lookupKV "Item".toList (components rq 8 svc) = some ".p.B.Item".toList ∧
+    Spec.complete rq 8 svc (components rq 8 svc) = false := by decide
+
+def errMsg : Message := { fullName := ".p.Error".toList, name := "Error".toList, fields := [{ name := "code".toList, kind := .int32 }] }
+def svcE : Service := { name := "S".toList, methods := [{ name := "Do".toList, input := ".p.A".toList, output := ".p.Error".toList }] }
+def rqE : Request := { files := [{ name := "p.proto".toList, messages := [msgA, itemA, errMsg], services := [svcE] }] }
+
+/-- a message named `Error` replaces the built-in error schema every `default` response refers to:
+the message still has a schema of its own (C18 holds), the error responses no longer describe
+sebuf's error body (a C06 matter). -/
+theorem user_error_shadows_builtin :
+    lookupKV "Error".toList (components rqE 8 svcE) = some ".p.Error".toList := by decide
+
+end Witness
 
 end Sebuf.C18
